@@ -137,36 +137,64 @@ theorem outcomeOps_cons (o : Op) (os : List Op) : outcomeOps (o :: os) = outcome
   simp only [outcomeOps, List.filterMap_cons]
   split <;> simp
 
+/-- what `runOp` adds to `stepOp`: at most the `stop()` section of a failfast forwarder -/
+theorem runOp_cases (f : List Nat) (ff : Bool) (l : Loc) (o : Op) :
+    runOp f ff l o = (secList (stepOp f l o).sec, (stepOp f l o).raised, (stepOp f l o).loc)
+    ∨ (ff = true ∧ o.unsuccessful = true ∧ (stepOp f l o).raised = false ∧
+        runOp f ff l o = (secList (stepOp f l o).sec ++ [[(.ctl .stop, f.contains (stepOp f l o).loc.n)]],
+                          f.contains (stepOp f l o).loc.n, (stepOp f (stepOp f l o).loc (.ctl .stop)).loc)) := by
+  unfold runOp
+  dsimp only
+  split
+  · rename_i h
+    simp only [Bool.and_eq_true, Bool.not_eq_true'] at h
+    right; exact ⟨h.1.1, h.1.2, h.2, by simp [stepOp, secList]⟩
+  · left; rfl
+
+theorem isTestSec_stop (r : Bool) : isTestSec [(Call.ctl .stop, r)] = false := rfl
+
+theorem runOp_testSecs (f : List Nat) (ff : Bool) (l : Loc) (o : Op) :
+    (runOp f ff l o).1.filter isTestSec = (secList (stepOp f l o).sec).filter isTestSec := by
+  rcases runOp_cases f ff l o with h | ⟨_, _, _, h⟩ <;> rw [h]
+  simp [List.filter_append, isTestSec_stop]
+
+theorem runOp_shape (f : List Nat) (ff : Bool) (l : Loc) (o : Op) : ∀ s ∈ (runOp f ff l o).1, shapeOk s = true := by
+  have hsec : ∀ s ∈ secList (stepOp f l o).sec, shapeOk s = true := by
+    intro s hs
+    rcases stepOp_sec_cases f l o with ⟨h1, _⟩ | ⟨c, r, h1, _⟩ | ⟨k, id, s', _, h1, h2, _, _⟩
+    · rw [h1] at hs; cases hs
+    · rw [h1] at hs; simp [secList] at hs; subst hs; simp [shapeOk]
+    · rw [h1] at hs; simp [secList] at hs; subst hs; exact h2
+  intro s hs
+  rcases runOp_cases f ff l o with h | ⟨_, _, _, h⟩ <;> rw [h] at hs
+  · exact hsec s hs
+  · rcases List.mem_append.mp hs with hs | hs
+    · exact hsec s hs
+    · simp at hs; subst hs; simp [shapeOk]
+
 /-- C12 (fault shapes): every critical section of a forwarder program is a well-shaped block -/
-theorem sections_shape (f : List Nat) : ∀ (ops : List Op) (l : Loc), ∀ s ∈ (sections f l ops).1, shapeOk s = true
+theorem sections_shape (f : List Nat) (ff : Bool) : ∀ (ops : List Op) (l : Loc), ∀ s ∈ (sections f ff l ops).1, shapeOk s = true
   | [], _, s, h => by simp [sections] at h
   | o :: os, l, s, h => by
       simp only [sections] at h
-      rcases stepOp_sec_cases f l o with ⟨h1, _⟩ | ⟨c, r, h1, _⟩ | ⟨k, id, s', _, h1, h2, _, _⟩
-      · rw [h1] at h; exact sections_shape f os _ s h
-      · rw [h1] at h
-        rcases List.mem_cons.mp h with rfl | h
-        · simp [shapeOk]
-        · exact sections_shape f os _ s h
-      · rw [h1] at h
-        rcases List.mem_cons.mp h with rfl | h
-        · exact h2
-        · exact sections_shape f os _ s h
+      rcases List.mem_append.mp h with h | h
+      · exact runOp_shape f ff l o s h
+      · exact sections_shape f ff os _ s h
 
 /-- every outcome operation has exactly one block, in program order -/
-theorem sections_testsOnce (f : List Nat) : ∀ (ops : List Op) (l : Loc),
-    zipAll blockFor (outcomeOps ops) ((sections f l ops).1.filter isTestSec) = true
+theorem sections_testsOnce (f : List Nat) (ff : Bool) : ∀ (ops : List Op) (l : Loc),
+    zipAll blockFor (outcomeOps ops) ((sections f ff l ops).1.filter isTestSec) = true
   | [], _ => by simp [sections, outcomeOps, zipAll]
   | o :: os, l => by
-      have ih := sections_testsOnce f os (stepOp f l o).loc
+      have ih := sections_testsOnce f ff os (runOp f ff l o).2.2
       rw [outcomeOps_cons]
-      simp only [sections]
+      simp only [sections, List.filter_append, runOp_testSecs]
       rcases stepOp_sec_cases f l o with ⟨h1, h0⟩ | ⟨c, r, h1, h0⟩ | ⟨k, id, s', ho, h1, _, h3, h4⟩
-      · rw [h1, h0]; simpa using ih
-      · rw [h1, h0]; simpa [isTestSec] using ih
+      · rw [h1, h0]; simpa [secList] using ih
+      · rw [h1, h0]; simpa [secList, isTestSec] using ih
       · subst ho
         rw [h1]
-        simp [outcomeOps, h3, zipAll, h4]
+        simp [outcomeOps, secList, h3, zipAll, h4]
         exact ih
 
 /-! ## the final state of the model -/
@@ -196,14 +224,14 @@ theorem holds_model (i : Input) : holds i (model i) = true := by
     rw [← hacc p.1 (hown p hpm)] at h1
     have hlt := hown p hpm
     simp only [secsFn, hlt, List.getElem?_eq_getElem, Option.map_some, Option.getD_some, Thread.secs] at h1
-    exact sections_shape _ _ _ _ h1
+    exact sections_shape _ _ _ _ _ h1
   · simp only [cPerThread, hp, Bool.and_eq_true, List.all_eq_true, decide_eq_true_eq, List.mem_range, beq_iff_eq]
     exact ⟨fun p hpm => hown p hpm, fun j hj => hsecs j hj⟩
   · simp only [cTestsOnce, hp, List.all_eq_true, List.mem_range]
     intro j hj
     rw [hsecs j hj]
     simp only [hj, List.getElem?_eq_getElem, Option.map_some, Option.getD_some, Thread.secs]
-    exact sections_testsOnce _ _ _
+    exact sections_testsOnce _ _ _ _
   · simpa [cNoDeadlock, model] using hfin
 
 /-! ## readable statements -/
@@ -233,7 +261,7 @@ theorem C12_blocks (ts : List Thread) (sched : List Nat) :
 well-shaped block (`Spec.C12.shapeOk`): one control call, or `time · startTest t · time · [tags] · [tags] ·
 outcome t · stopTest t` cut only as `shape_cut` says. -/
 theorem C12_block_shape (t : Thread) : ∀ s ∈ t.secs, shapeOk s = true :=
-  sections_shape t.faults t.ops {}
+  sections_shape t.faults t.failfast t.ops {}
 
 theorem shapeTail_cut (id : TId) : ∀ (n : Nat) (s pre post : Section) (c : Call), shapeTail id n s = true →
     s = pre ++ (c, true) :: post →
@@ -432,35 +460,52 @@ theorem stepOp_outcome_head (f : List Nat) (l : Loc) (k : Kind) (id : TId) :
 /-- **C12 (own start time)** — the first call of a test's block is `time(start)` where `start` is the time that
 was current when `startTest` was called, whatever `time()`/`tags()` calls happen between `startTest` and the
 outcome. -/
-theorem C12_own_start_time (f : List Nat) (id : TId) (k : Kind) : ∀ (mid : List Op) (l : Loc) (start : Time),
+theorem C12_own_start_time (f : List Nat) (ff : Bool) (id : TId) (k : Kind) : ∀ (mid : List Op) (l : Loc) (start : Time),
     (∀ o ∈ mid, (∃ t, o = .time t) ∨ ∃ a b, o = .tags a b) → l.start = start →
-    ∃ r rest tl, (sections f l (mid ++ [.outcome k id])).1 = ((Call.time start, r) :: rest) :: tl
+    ∃ r rest tl, (sections f ff l (mid ++ [.outcome k id])).1 = ((Call.time start, r) :: rest) :: tl
   | [], l, start, _, hs => by
       obtain ⟨r, rest, h1⟩ := stepOp_outcome_head f l k id
-      exact ⟨r, rest, [], by simp only [List.nil_append, sections, h1, hs]⟩
+      rcases runOp_cases f ff l (.outcome k id) with h | ⟨_, _, _, h⟩
+      · exact ⟨r, rest, [], by simp only [List.nil_append, sections, h, h1, hs, secList, List.append_nil]⟩
+      · exact ⟨r, rest, _, by simp only [List.nil_append, sections, h, h1, hs, secList, List.append_nil]; rfl⟩
   | o :: mid, l, start, hm, hs => by
       have ho := hm o List.mem_cons_self
-      have ih := fun l' hl' => C12_own_start_time f id k mid l' start (fun o' ho' => hm o' (List.mem_cons_of_mem _ ho')) hl'
+      have ih := fun l' hl' => C12_own_start_time f ff id k mid l' start (fun o' ho' => hm o' (List.mem_cons_of_mem _ ho')) hl'
       rcases ho with ⟨t, rfl⟩ | ⟨a, b, rfl⟩
       · obtain ⟨r, rest, tl, h⟩ := ih { l with now := t } hs
-        exact ⟨r, rest, tl, by simpa [sections, stepOp] using h⟩
+        exact ⟨r, rest, tl, by simpa [sections, runOp, Op.unsuccessful, secList, stepOp] using h⟩
       · by_cases hin : l.inTest = true
         · obtain ⟨r, rest, tl, h⟩ := ih { l with ttags := mergeTags l.ttags (normTags a, normTags b) } hs
-          exact ⟨r, rest, tl, by simpa [sections, stepOp, hin] using h⟩
+          exact ⟨r, rest, tl, by simpa [sections, runOp, Op.unsuccessful, secList, stepOp, hin] using h⟩
         · obtain ⟨r, rest, tl, h⟩ := ih { l with gtags := mergeTags l.gtags (normTags a, normTags b) } hs
-          exact ⟨r, rest, tl, by simpa [sections, stepOp, hin] using h⟩
+          exact ⟨r, rest, tl, by simpa [sections, runOp, Op.unsuccessful, secList, stepOp, hin] using h⟩
 
 /-- **C12 (a well-formed test, no faults)** — `startTest t · time b · outcome k t` in any forwarder state
 produces exactly the block `time(start) · startTest t · time(b) · [run-level tags] · [test tags] · outcome k t ·
 stopTest t`, where `start` is the time current at `startTest`; nothing raises. -/
 theorem C12_wellformed_block (l : Loc) (id : TId) (k : Kind) (b : Nat) :
-    sections [] l [.startTest id, .time (some b), .outcome k id]
+    sections [] false l [.startTest id, .time (some b), .outcome k id]
       = ([ [(.time l.nowT, false), (.startTest id, false), (.time (.at b), false)]
             ++ (if anyTags l.gtags then [(Call.tags l.gtags.1 l.gtags.2, false)] else [])
             ++ (if anyTags l.ttags then [(Call.tags l.ttags.1 l.ttags.2, false)] else [])
             ++ [(.outcome k id, false), (.stopTest id, false)] ], [false, false, false]) := by
   by_cases hg : anyTags l.gtags = true <;> by_cases ht : anyTags l.ttags = true <;>
-    simp [sections, stepOp, preCalls, emit, Loc.nowT, hg, ht]
+    simp [sections, runOp, secList, stepOp, preCalls, emit, Loc.nowT, hg, ht]
+
+/-- **C12 (failfast on the forwarder)** — with `failfast` set on a forwarder an unsuccessful outcome that did not raise is
+followed by one more critical section, `stop()` on the target (and only then); nothing else changes. -/
+theorem C12_failfast_stop (f : List Nat) (l : Loc) (k : Kind) (id : TId)
+    (hk : (Op.outcome k id).unsuccessful = true) (hr : (stepOp f l (.outcome k id)).raised = false) :
+    (runOp f true l (.outcome k id)).1
+      = secList (stepOp f l (.outcome k id)).sec ++ [[(.ctl .stop, f.contains (stepOp f l (.outcome k id)).loc.n)]]
+    ∧ ∀ o, (o.unsuccessful = false ∨ (stepOp f l o).raised = true) → (runOp f true l o).1 = secList (stepOp f l o).sec := by
+  constructor
+  · rcases runOp_cases f true l (.outcome k id) with h | ⟨_, _, _, h⟩
+    · simp [runOp, hk, hr] at h ⊢
+      simp [stepOp, secList]
+    · rw [h]
+  · intro o ho
+    rcases ho with ho | ho <;> simp [runOp, ho]
 
 /-- **C12 (release)** — after *any* schedule a thread that stands at an operation boundary (its remaining steps
 are whole sections) does not hold the semaphore — whether or not the operation before raised. -/
@@ -518,9 +563,9 @@ theorem C12_terminates (i : Input) : (model i).finished = true ∧ (final i).sem
   exact ⟨by simpa [model] using hfin, hsem⟩
 
 /-- the forwarder-local state in which each operation of a program starts -/
-def locsOf (f : List Nat) : Loc → List Op → List Loc
+def locsOf (f : List Nat) (ff : Bool) : Loc → List Op → List Loc
   | _, [] => []
-  | l, o :: os => l :: locsOf f (stepOp f l o).loc os
+  | l, o :: os => l :: locsOf f ff (runOp f ff l o).2.2 os
 
 /-! ## tie to the source: the control skeletons of `ThreadsafeForwardingResult`
 `TTV.Generated.TfrSkel.*` are produced by `harness/tfrskel.py` from `testtools/testresult/real.py` on every run; see
@@ -587,7 +632,7 @@ theorem C12_src_local (f : List Nat) (l : Loc) :
 
 /-- **C12 (source, which outcome goes where)** — each `add*` method hands its own method of the target to
 `_add_result_with_semaphore` (so the outcome call of the block is the outcome that was reported), the unsuccessful ones then
-consult `failfast` (unset in C12's domain); `_any_tags`, `TestResult._now`, the clock reset of `TestResult.startTestRun`, the
+consult `failfast` on the forwarder (`Conc.runOp`); `_any_tags`, `TestResult._now`, the clock reset of `TestResult.startTestRun`, the
 `shouldStop` property and `_stop_if_failfast` are the code the model's `anyTags` / `Loc.nowT` / `stepOp` transcribe. -/
 theorem C12_src_forward :
     Generated.TfrSkel.forward = TfrSkel.refForward
@@ -595,34 +640,57 @@ theorem C12_src_forward :
     ∧ Generated.TfrSkel.startTestRunClearsClock = true ∧ Generated.TfrSkel.shouldStopIsTheGuardedGetter = true
     ∧ Generated.TfrSkel.stopIfFailfastIsGuardedStop = true := by decide
 
+theorem progSteps_append (a b : List Section) : progSteps (a ++ b) = progSteps a ++ progSteps b := by
+  simp [progSteps]
+
+/-- the micro-steps the source performs for one operation of a forwarder (`ff`: failfast set on it): the interpreted
+skeleton of the method, and after an unsuccessful outcome that did not raise - `_stop_if_failfast()` - that of `stop` -/
+def srcOpSteps (f : List Nat) (ff : Bool) (l : Loc) (o : Op) : List Step :=
+  match o with
+  | .outcome k id =>
+    let b := TfrSkel.interp f { kind := k, id := id } Generated.TfrSkel.addResult { loc := l }
+    b.steps ++ (if ff && o.unsuccessful && !b.raised then (TfrSkel.interp f {} (srcCtl .stop) { loc := b.loc }).steps else [])
+  | .ctl c => (TfrSkel.interp f {} (srcCtl c) { loc := l }).steps
+  | _ => []
+
+/-- the `add*` methods after which the source calls `_stop_if_failfast()` are the outcomes the model calls unsuccessful -/
+theorem C12_src_failfast_kinds :
+    ∀ k : Kind, (TfrSkel.refForward.find? (·.1 == k)).map (·.2.2) = some (Op.outcome k (.t 0)).unsuccessful := by
+  intro k; cases k <;> rfl
+
 /-- every micro-step list the model runs is made of interpreted source blocks: the steps of a thread are the
 concatenation, over its operations, of the steps the source skeleton of that operation performs -/
-theorem C12_src_thread_steps (f : List Nat) : ∀ (ops : List Op) (l : Loc),
-    progSteps (sections f l ops).1 =
-      (ops.zip (locsOf f l ops)).flatMap fun p =>
-        match p.1 with
-        | .outcome k id => (TfrSkel.interp f { kind := k, id := id } Generated.TfrSkel.addResult { loc := p.2 }).steps
-        | .ctl c => (TfrSkel.interp f {} (srcCtl c) { loc := p.2 }).steps
-        | _ => []
+theorem C12_src_thread_steps (f : List Nat) (ff : Bool) : ∀ (ops : List Op) (l : Loc),
+    progSteps (sections f ff l ops).1 = (ops.zip (locsOf f ff l ops)).flatMap fun p => srcOpSteps f ff p.2 p.1
   | [], _ => by simp [sections, progSteps, locsOf]
   | o :: os, l => by
-      have ih := C12_src_thread_steps f os (stepOp f l o).loc
-      simp only [sections, locsOf, List.zip_cons_cons, List.flatMap_cons]
+      have ih := C12_src_thread_steps f ff os (runOp f ff l o).2.2
+      simp only [sections, locsOf, List.zip_cons_cons, List.flatMap_cons, progSteps_append]
       rw [← ih]
+      congr 1
       cases o with
       | outcome k id =>
-        dsimp only
-        rw [C12_src_block]
         obtain ⟨s, hs, _⟩ := stepOp_outcome f l k id
-        simp [hs, progSteps]
+        simp only [srcOpSteps, C12_src_block, C12_src_ctl, hs, Option.getD_some]
+        rcases runOp_cases f ff l (.outcome k id) with h | ⟨h1, h2, h3, h⟩
+        · have hc : (ff && (Op.outcome k id).unsuccessful && !(stepOp f l (.outcome k id)).raised) = false := by
+            simp only [runOp] at h
+            split at h
+            · rename_i hc
+              have := congrArg (fun x => x.1.length) h
+              simp [hs, secList, stepOp] at this
+            · rename_i hc; simpa using hc
+          rw [h]; simp [hc, hs, secList, progSteps]
+        · have hstop : ∀ l' : Loc, (stepOp f l' (.ctl .stop)).sec = some [(.ctl .stop, f.contains l'.n)] := by
+            intro l'; simp [stepOp]
+          rw [h]; simp [h1, h2, h3, hs, secList, progSteps, hstop]
       | ctl c =>
-        dsimp only
-        rw [C12_src_ctl]
-        simp [stepOp, progSteps]
-      | time t => simp [stepOp]
-      | tags a b => simp [stepOp]
-      | startTest i => simp [stepOp]
-      | stopTest i => simp [stepOp]
+        simp only [srcOpSteps, C12_src_ctl]
+        simp [runOp, Op.unsuccessful, stepOp, secList, progSteps]
+      | time t => simp [srcOpSteps, runOp, Op.unsuccessful, stepOp, secList, progSteps]
+      | tags a b => simp [srcOpSteps, runOp, Op.unsuccessful, stepOp, secList, progSteps]
+      | startTest i => simp [srcOpSteps, runOp, Op.unsuccessful, stepOp, secList, progSteps]
+      | stopTest i => simp [srcOpSteps, runOp, Op.unsuccessful, stepOp, secList, progSteps]
 
 /-! ## non-vacuity -/
 
